@@ -19,7 +19,7 @@ PROPS = {
     "C10": dict(runs=[dict(profile="C10", cfgs="crash1,crash2,crashvs,crashold", env={}, scripts_mult=2),
                       dict(profile="CONC", cfgs="crash1,crash2", env={}, scripts_mult=1)], checked=["crash10"]),
     "C11": dict(runs=[dict(profile="C11", cfgs="crash1,crash2,crashvs,crashold", env={}, scripts_mult=2),
-                      dict(profile="C11F", cfgs="crash2,crash1", env={"VERIF_EVERY": "2"}, finding=True, scripts=2)],
+                      dict(profile="C11F", cfgs="crash2,crash1", env={"VERIF_EVERY": "2"}, finding=True, scripts=5)],
                 checked=["crash11"]),
     "C12": dict(runs=[dict(profile="C12", cfgs="crash1,crashnowal,crash2,crashnowalauto", env={}),
                       dict(profile="CONC", cfgs="crashnowal,crashnowalauto,crash1", env={}, scripts_mult=1.5)], checked=["crash12"]),
